@@ -98,3 +98,91 @@ def all_small_tree_specs(max_dec: int, names_dec, names_stable, max_mult: int = 
                     for i in range(n):
                         spec[i][1] += [names_stable[i % len(names_stable)]] * (1 + extra[i])
                     yield [(a, b) for a, b in spec]
+
+
+# ----------------------------------------------------------------------------- .dec documents
+_MODELS = None
+
+
+def known_models():
+    global _MODELS
+    if _MODELS is None:
+        from decaylanguage.dec.enums import known_decay_models
+
+        _MODELS = list(known_decay_models)
+    return _MODELS
+
+
+_WORD = set("abcdefghijklmnopqrstuvwxyzABCDEFGHIJKLMNOPQRSTUVWXYZ0123456789_")
+
+
+def safe_label(name: str, extra_models=()) -> bool:
+    """a label that is one LABEL token in daughter position and is not taken for a model name or PHOTOS"""
+    if not name or name[0] in "0123456789.+-" or name == "PHOTOS":
+        return False
+    if any(c not in SYNTH_CHARS for c in name):
+        return False
+    for m in list(known_models()) + list(extra_models):
+        if name.startswith(m) and (len(name) == len(m) or name[len(m)] not in _WORD):
+            return False
+    return True
+
+
+def safe_names(rng: random.Random, n: int, synthetic: float = 0.15):
+    out = []
+    while len(out) < n:
+        for s in name_pool(rng, n, synthetic):
+            if safe_label(s) and s not in out:
+                out.append(s)
+    return out[:n]
+
+
+MODEL_CHOICES = [
+    ["named", "PHSP", None], ["named", "PHSP", None], ["named", "VSS", None], ["named", "SVS", None],
+    ["named", "HELAMP", [["num", "1.0"], ["num", "0.0"], ["num", "-1.0"], ["num", "0.5"]]],
+    ["named", "TAUHADNU", [["num", "-0.108"], ["num", "0.775"], ["num", "0.149"]]],
+    ["named", "SSD_CP", [["num", "20.e12"], ["num", "0.1"], ["num", "1."], ["num", ".04"], ["num", "2E-4"], ["num", "+3"]]],
+    ["named", "LbAmpGen", [["word", "DtoKpipipi_v1"]]],
+    ["named", "VSP_PWAVE", None], ["named", "PI0_DALITZ", None], ["named", "ISGW2", None],
+    ["named", "BTOXSGAMMA", [["num", "2"]]], ["named", "PYTHIA", [["num", "21"]]],
+]
+
+BF_CHOICES = ["1.0", "0.5", "0.25", "0.125", "1", "0.3", "0.0271", "0.0542", "1e-3", "2E-4", ".5", "1.", "0.98823", "0.6770"]
+
+
+def gen_tables(rng: random.Random, n_dec=None, max_lines=4, max_ds=4, aliases=True, empty_blocks=True, depth_bias=0.5):
+    """an acyclic set of decay tables as wire statements.  Returns (doc, info) with info = dict(dec=[names of
+    particles with a Decay block], stable=[...], aliases={alias: name})"""
+    n_dec = n_dec or rng.choice([1, 2, 3, 3, 4, 5, 6])
+    names = safe_names(rng, n_dec + 5)
+    dec = names[:n_dec]
+    stable = names[n_dec:]
+    alias = {}
+    doc = []
+    for i, d in enumerate(dec):
+        if aliases and i > 0 and rng.random() < 0.3:
+            # the decaying particle is an alias of a real particle
+            target = rng.choice(stable + [n for n in evtgen_names() if safe_label(n)][:50])
+            alias[d] = target
+    blocks = []
+    for i, d in enumerate(dec):
+        n_lines = rng.randint(0 if (empty_blocks and i > 0 and rng.random() < 0.15) else 1, max_lines)
+        lines = []
+        for _ in range(n_lines):
+            ds = []
+            for _ in range(rng.randint(0 if rng.random() < 0.05 else 1, max_ds)):
+                if i + 1 < n_dec and rng.random() < depth_bias:
+                    ds.append(dec[rng.randint(i + 1, n_dec - 1)])
+                else:
+                    ds.append(rng.choice(stable))
+                if rng.random() < 0.2:
+                    ds.append(ds[-1])
+            lines.append([rng.choice(BF_CHOICES), ds, rng.random() < 0.2, rng.choice(MODEL_CHOICES)])
+        blocks.append(["decay", d, lines])
+    for a, t in alias.items():
+        doc.append(["alias", a, t])
+    rng.shuffle(blocks) if rng.random() < 0.5 else None
+    doc += blocks
+    if rng.random() < 0.3:
+        rng.shuffle(doc)
+    return doc, {"dec": dec, "stable": stable, "aliases": alias}
